@@ -180,12 +180,15 @@ class AliasClass:
                 si = strip(ini)
                 if si.get('k') == 'cond' and (self.is_range_test(f, si['c'], pid) or self.is_range_test(f, q.expand(f, si['c'], bools_only=True), pid)):
                     out.add(v['id'])
-                elif si.get('k') == 'call' and si.get('fn') and not si.get('clsp'):
-                    refs_storage = any((w.get('k') == 'mem' and w.get('f') in self.storage) or (w.get('k') == 'call' and (w.get('pq') or '').split('::')[-1] in ('str', 'data')) or
+                elif si.get('k') == 'call' and si.get('fn') and (not si.get('clsp') or (si.get('clsp') == self.cls and (si.get('obj') is None or is_this_obj(si)))):
+                    member_helper = bool(si.get('clsp'))
+                    refs_storage = member_helper or any((w.get('k') == 'mem' and w.get('f') in self.storage) or (w.get('k') == 'call' and (w.get('pq') or '').split('::')[-1] in ('str', 'data')) or
                                        (w.get('k') == 'var' and w.get('vk') == 'local' and T(f, w.get('t')).get('ptr')) for a in si.get('a', []) for w in walk_expr(a))
                     helper = [g for g in self.prog.fn(si['fn'], si.get('sig')) if g.get('body')]
                     neg = helper and any(st.get('k') == 'return' and (const_val(st.get('e')) or 0) < 0 for st in ir.walk_stmts(helper[0]['body']))
                     cmpb = helper and any(w.get('k') == 'bin' and w.get('op') in ('<', '>', '<=', '>=') for w in fn_exprs(helper[0]))
+                    if member_helper and helper:
+                        refs_storage = any((w.get('k') == 'mem' and w.get('f') in self.storage) or (w.get('k') == 'call' and (w.get('pq') or '').split('::')[-1] in ('str', 'data')) for w in fn_exprs(helper[0]))
                     if refs_storage and neg and cmpb:
                         out.add(v['id'])
         return out
